@@ -16,6 +16,7 @@ import (
 	"encoding/json"
 	"fmt"
 	"os"
+	"path/filepath"
 	"os/exec"
 	"sort"
 	"strings"
@@ -52,6 +53,10 @@ type Workload struct {
 	// FreshProcess: additionally execute every distinct operation alone in a
 	// freshly exec'ed process (the literal "fresh process state") and compare.
 	FreshProcess bool                `json:"fresh_process,omitempty"`
+	// DirLoads: loads go through the file loader - the set is written to one workspace directory
+	// (the same paths for every set, fixed modification times: the simulated disk) and read back
+	// with engine.ReadPlScriptFromDir before ParseScript
+	DirLoads bool `json:"dir_loads,omitempty"`
 	Sets         []map[string]string `json:"sets"`
 	Sources      []string            `json:"sources"`
 	V2           []string            `json:"v2"`
@@ -95,6 +100,7 @@ func (Prop) Generate(seed uint64, tier string) *core.Plan {
 	corpus.SetTheme(r)
 	w := Workload{}
 	w.FreshProcess = r.Intn(300) == 0
+	w.DirLoads = r.Intn(4) == 0
 	if tier == "thorough" {
 		w.FreshProcess = r.Intn(100) == 0
 	}
@@ -111,7 +117,11 @@ func (Prop) Generate(seed uint64, tier string) *core.Plan {
 			names := sortedNames(cp)
 			if r.Intn(4) != 0 {
 				n := names[r.Intn(len(names))]
-				cp[n] = corpus.GenScript(r, 90+i)
+				if ed := bumpDigit(cp[n]); ed != "" && r.Intn(2) == 0 {
+					cp[n] = ed // an edit that keeps the length
+				} else {
+					cp[n] = corpus.GenScript(r, 90+i)
+				}
 			}
 			w.Sets = append(w.Sets, cp)
 			continue
@@ -265,10 +275,56 @@ func (x *executor) setEnv(op *Op) string {
 	return ""
 }
 
+// bumpDigit changes the first decimal digit of a script text (same length), "" if there is none.
+func bumpDigit(src string) string {
+	for i := 0; i < len(src); i++ {
+		if c := src[i]; c >= '0' && c <= '9' {
+			return src[:i] + string(rune('0'+(c-'0'+1)%10)) + src[i+1:]
+		}
+	}
+	return ""
+}
+
+var wsStamp = time.Unix(1600000000, 0)
+
+// viaDir writes a set to the workspace directory of this process and reads it back through the
+// file loader: every set uses the same paths, every file the same modification time.
+func viaDir(set map[string]string) (map[string]string, error) {
+	base := os.Getenv("VERIF_TMP")
+	if base == "" {
+		base = os.TempDir()
+	}
+	dir := filepath.Join(base, fmt.Sprintf("c15-%d", os.Getpid()), "ws")
+	if err := os.RemoveAll(dir); err != nil {
+		return nil, err
+	}
+	if err := os.MkdirAll(dir, 0o755); err != nil {
+		return nil, err
+	}
+	for _, n := range sortedNames(set) {
+		f := filepath.Join(dir, n)
+		if err := os.WriteFile(f, []byte(set[n]), 0o644); err != nil {
+			return nil, err
+		}
+		if err := os.Chtimes(f, wsStamp, wsStamp); err != nil {
+			return nil, err
+		}
+	}
+	src, _, err := engine.ReadPlScriptFromDir(dir)
+	return src, err
+}
+
 func (x *executor) load(set int) string {
 	src := map[string]string{}
 	for k, v := range x.w.Sets[set] {
 		src[k] = v
+	}
+	if x.w.DirLoads {
+		var err error
+		if src, err = viaDir(x.w.Sets[set]); err != nil {
+			return "READERR " + err.Error()
+		}
+		x.probes["loads_through_the_file_loader"]++
 	}
 	okM, errM := engine.ParseScript(src, x.calls, x.checks)
 	x.loaded[set] = okM
@@ -368,11 +424,19 @@ func (x *executor) runv2(op *Op) string {
 	return fmt.Sprintf("err=%s out=%v", errStr(errOrNil(rerr)), x.v2out)
 }
 
+const refBudget = 400000
+
 func (x *executor) do(op *Op, fresh bool) (out string) {
 	if msg := x.setEnv(op); msg != "" {
 		return msg
 	}
-	simrt.SetBudget(400000)
+	// the pristine reference gets refBudget events; a history execution ten times as many, so that
+	// "the history run did not come back" can never be an artefact of a plan near the limit
+	if fresh {
+		simrt.SetBudget(refBudget)
+	} else {
+		simrt.SetBudget(10 * refBudget)
+	}
 	pv, blown := core.Guard(func() {
 		switch op.Kind {
 		case "load":
@@ -447,9 +511,12 @@ func (Prop) Run(p *core.Plan) *core.Result {
 		res.NonTrivial = true
 		return res
 	}
-	for i, o := range ref {
+	for _, o := range ref {
 		if o == "BLOWN" {
-			return &core.Result{Infra: fmt.Sprintf("reference execution of op %d exceeded the step budget: %+v", i, w.Ops[i])}
+			// the generated program is too large for the budget (the generator's fault, not the
+			// code's): the plan decides nothing and is counted as skipped
+			res.Probes["plans_skipped_reference_over_budget"]++
+			return res
 		}
 	}
 	// history: forward order, simulator-chosen recycling
